@@ -143,7 +143,7 @@ def inner_app(iface: str, recipe: str, sym: Dict[str, Any], counter: List[int]):
         if recipe == "restart":
             def app(environ, start_response):
                 counter[0] += 1
-                start_response("200 OK", [("x-first", "1")])
+                start_response("200 OK", [("x-first", "1"), ("set-cookie", "optimistic=1; path=/")])  # replaced below: must vanish entirely
                 try:
                     raise RuntimeError("late failure")
                 except RuntimeError:
